@@ -1,4 +1,525 @@
 (* C06 — lemmas *)
-From Coq Require Import List NArith Bool Lia.
+From Coq Require Import List NArith Bool Lia String Ascii.
 Import ListNotations.
 From VF Require Import C06.Model.
+
+Lemma kid_eqb_eq a b : kid_eqb a b = true <-> a = b.
+Proof.
+  destruct a, b; simpl; split; intro H; try discriminate; try (apply N.eqb_eq in H; subst; reflexivity);
+    inversion H; subst; apply N.eqb_refl.
+Qed.
+Lemma kid_eqb_refl a : kid_eqb a a = true.
+Proof. apply kid_eqb_eq; reflexivity. Qed.
+Lemma kid_eqb_neq a b : kid_eqb a b = false <-> a <> b.
+Proof.
+  split; intro H.
+  - intro E. apply kid_eqb_eq in E. congruence.
+  - destruct (kid_eqb a b) eqn:E; [apply kid_eqb_eq in E; contradiction | reflexivity].
+Qed.
+
+Lemma lookup_remove_same s id : lookup (remove s id) id = None.
+Proof.
+  induction s as [|[i ks] r IH]; simpl; [reflexivity|].
+  destruct (kid_eqb id i) eqn:E; [exact IH|]. simpl. rewrite E. exact IH.
+Qed.
+Lemma lookup_remove_other s id id' : id' <> id -> lookup (remove s id) id' = lookup s id'.
+Proof.
+  intro N. induction s as [|[i ks] r IH]; simpl; [reflexivity|].
+  destruct (kid_eqb id i) eqn:E.
+  - apply kid_eqb_eq in E; subst i. rewrite IH.
+    destruct (kid_eqb id' id) eqn:E2; [apply kid_eqb_eq in E2; contradiction | reflexivity].
+  - simpl. rewrite IH. reflexivity.
+Qed.
+Lemma lookup_put_same s id ks : lookup (put s id ks) id = Some ks.
+Proof. unfold put; simpl. rewrite kid_eqb_refl. reflexivity. Qed.
+Lemma lookup_put_other s id ks id' : id' <> id -> lookup (put s id ks) id' = lookup s id'.
+Proof.
+  intro N. unfold put; simpl.
+  destruct (kid_eqb id' id) eqn:E; [apply kid_eqb_eq in E; contradiction|].
+  apply lookup_remove_other; exact N.
+Qed.
+
+(* a Put under an absent id keeps every entry *)
+Lemma put_absent_keeps s id ks id' ks' :
+  lookup s id = None -> lookup s id' = Some ks' -> lookup (put s id ks) id' = Some ks'.
+Proof.
+  intros A L. rewrite lookup_put_other; [exact L|]. intro E; subst. congruence.
+Qed.
+
+Ltac plan_cases :=
+  repeat match goal with
+  | |- context [if ?b then _ else _] => destruct b eqn:?
+  | |- context [match lookup ?s ?i with _ => _ end] => destruct (lookup s i) eqn:?
+  | |- context [match v_rot ?v with _ => _ end] => destruct (v_rot v) eqn:?
+  | |- context [match ?u with Some _ => _ | None => _ end] => destruct u eqn:?
+  end.
+
+(* ---------- crash safety (Fixed order) ---------- *)
+
+(* whatever prefix of an operation's store calls completes before the process dies, every entry of the store is
+   still there, unchanged, under its id *)
+Lemma crash_keeps_entries : forall s p o c pre id ks,
+  survive c (fst (plan Fixed s p o)) = Some pre ->
+  lookup s id = Some ks ->
+  lookup (apply_calls s pre) id = Some ks.
+Proof.
+  intros s p o c pre id ks Hs L.
+  destruct o as [kt|kt|kt u k|rid|gid|eid|]; cbn [plan] in Hs.
+  - (* create *)
+    destruct (negb (kt_creatable kt)); [discriminate|].
+    destruct (lookup s (new_id kt p p)) eqn:E; cbn in Hs.
+    + discriminate.
+    + destruct c; cbn in Hs; inversion Hs; subst; cbn; exact L.
+  - destruct (negb (kt_creatable kt)); [discriminate|].
+    destruct (lookup s (new_id kt p p)) eqn:E; cbn in Hs.
+    + discriminate.
+    + destruct c; cbn in Hs; inversion Hs; subst; cbn; exact L.
+  - destruct (negb (kt_importable kt)); [discriminate|].
+    match type of Hs with context [lookup s ?i] => destruct (lookup s i) eqn:E end; cbn in Hs.
+    + discriminate.
+    + destruct c; cbn in Hs; inversion Hs; subst; cbn; exact L.
+  - destruct (lookup s rid) as [oks|] eqn:E; cbn in Hs; [|discriminate].
+    destruct (negb (kt_template (ks_kt oks))); cbn in Hs; [discriminate|].
+    destruct (lookup s (new_id (ks_kt oks) p p)) eqn:E2; cbn in Hs; [discriminate|].
+    destruct c as [|[|c]]; cbn in Hs; inversion Hs; subst; cbn.
+    + exact L.
+    + apply put_absent_keeps; assumption.
+  - cbn in Hs. discriminate.
+  - cbn in Hs. discriminate.
+  - cbn in Hs. discriminate.
+Qed.
+
+(* the as-is order loses the entry *)
+Definition asis_witness_store : store := [(KThumb 0%N, {| ks_kt := K_ED25519; ks_keys := [0%N] |})].
+
+(* ---------- what a completed or interrupted step does to one entry ---------- *)
+
+Definition calls_of (v : variant) (st : kstate) (oc : kop * option nat) : list scall :=
+  fst (snd (step_calls v st oc)).
+
+Lemma step_store v st oc :
+  st_store (fst (step v st oc)) = apply_calls (st_store st) (calls_of v st oc).
+Proof.
+  unfold step, calls_of, step_calls. destruct oc as [o c].
+  destruct (plan v (st_store st) (st_pos st) o) as [cs out].
+  destruct c as [c|]; [destruct (survive c cs)|]; reflexivity.
+Qed.
+
+Lemma step_pos v st oc : st_pos (fst (step v st oc)) = N.succ (st_pos st).
+Proof.
+  unfold step, step_calls. destruct oc as [o c].
+  destruct (plan v (st_store st) (st_pos st) o) as [cs out].
+  destruct c as [c|]; [destruct (survive c cs)|]; reflexivity.
+Qed.
+
+(* a step either crashed (then crash_keeps_entries applies) or ran its whole plan *)
+Lemma step_cases v st o c :
+  (exists n pre, c = Some n /\ survive n (fst (plan v (st_store st) (st_pos st) o)) = Some pre /\
+                 calls_of v st (o, c) = pre /\ snd (step v st (o, c)) = OCrashed) \/
+  (calls_of v st (o, c) = fst (plan v (st_store st) (st_pos st) o) /\
+   snd (step v st (o, c)) = snd (plan v (st_store st) (st_pos st) o)).
+Proof.
+  unfold calls_of, step, step_calls.
+  destruct (plan v (st_store st) (st_pos st) o) as [cs out] eqn:P.
+  destruct c as [n|].
+  - destruct (survive n cs) as [pre|] eqn:S.
+    + left. exists n, pre. cbn. repeat split; try reflexivity. exact S.
+    + right. cbn. split; reflexivity.
+  - right. cbn. split; reflexivity.
+Qed.
+
+(* full plan, Fixed: an entry changes only by a completed rotation of that very id, which moves its keys (all of
+   them, in order, plus the new primary) under the returned id *)
+Ltac sc := unfold apply_calls, Fixed, AsIs; cbn [fold_left apply_call fst snd v_rot v_import_thumb].
+
+Lemma full_plan_entry : forall s p o id ks,
+  lookup s id = Some ks ->
+  lookup (apply_calls s (fst (plan Fixed s p o))) id = Some ks \/
+  (o = KRotate id /\ exists nid,
+     snd (plan Fixed s p o) = OId nid p /\ nid <> id /\
+     lookup (apply_calls s (fst (plan Fixed s p o))) nid =
+       Some {| ks_kt := ks_kt ks; ks_keys := ks_keys ks ++ [p] |} /\
+     lookup (apply_calls s (fst (plan Fixed s p o))) id = None).
+Proof.
+  intros s p o id ks L.
+  destruct o as [kt|kt|kt u k|rid|gid|eid|]; cbn [plan].
+  - left. destruct (negb (kt_creatable kt)); [exact L|].
+    destruct (lookup s (new_id kt p p)) eqn:E; sc; [exact L|]. apply put_absent_keeps; assumption.
+  - left. destruct (negb (kt_creatable kt)); [exact L|].
+    destruct (lookup s (new_id kt p p)) eqn:E; sc; [exact L|]. apply put_absent_keeps; assumption.
+  - left. destruct (negb (kt_importable kt)); [exact L|].
+    match goal with |- context [lookup s ?i] => destruct (lookup s i) eqn:E end; sc; [exact L|].
+    apply put_absent_keeps; assumption.
+  - destruct (lookup s rid) as [oks|] eqn:E; sc; [|left; exact L].
+    destruct (negb (kt_template (ks_kt oks))); sc; [left; exact L|].
+    destruct (lookup s (new_id (ks_kt oks) p p)) eqn:E2; sc; [left; exact L|].
+    destruct (kid_eqb id rid) eqn:EQ.
+    + apply kid_eqb_eq in EQ; subst rid. right. split; [reflexivity|].
+      rewrite L in E; inversion E; subst oks.
+      exists (new_id (ks_kt ks) p p). split; [reflexivity|].
+      assert (NE : new_id (ks_kt ks) p p <> id) by (intro X; rewrite X in E2; congruence).
+      split; [exact NE|]. split.
+      * rewrite lookup_remove_other by exact NE. apply lookup_put_same.
+      * apply lookup_remove_same.
+    + apply kid_eqb_neq in EQ. left.
+      rewrite lookup_remove_other by exact EQ. apply put_absent_keeps; assumption.
+  - left. sc. exact L.
+  - left. sc. exact L.
+  - left. sc. exact L.
+Qed.
+
+Lemma step_entry : forall st oc id ks,
+  lookup (st_store st) id = Some ks ->
+  lookup (st_store (fst (step Fixed st oc))) id = Some ks \/
+  (fst oc = KRotate id /\ exists nid,
+     snd (step Fixed st oc) = OId nid (st_pos st) /\ nid <> id /\
+     lookup (st_store (fst (step Fixed st oc))) nid =
+       Some {| ks_kt := ks_kt ks; ks_keys := ks_keys ks ++ [st_pos st] |} /\
+     lookup (st_store (fst (step Fixed st oc))) id = None).
+Proof.
+  intros st [o c] id ks L. rewrite step_store.
+  destruct (step_cases Fixed st o c) as [(n & pre & -> & S & C & O) | (C & O)].
+  - left. rewrite C. eapply crash_keeps_entries; eassumption.
+  - rewrite C, O. apply full_plan_entry. exact L.
+Qed.
+
+(* no step — completed, failed or interrupted — destroys key material *)
+Lemma step_keeps_key : forall st oc k,
+  has_key (st_store st) k -> has_key (st_store (fst (step Fixed st oc))) k.
+Proof.
+  intros st oc k (id & ks & L & I).
+  destruct (step_entry st oc id ks L) as [K | (_ & nid & _ & _ & K & _)].
+  - exists id, ks. split; assumption.
+  - eexists nid, _. split; [exact K|]. cbn. apply in_or_app. left. exact I.
+Qed.
+
+Lemma run_keeps_key : forall ops st k,
+  has_key (st_store st) k -> has_key (st_store (fst (run Fixed st ops))) k.
+Proof.
+  induction ops as [|oc r IH]; intros st k H; cbn; [exact H|].
+  destruct (step Fixed st oc) as [s1 x] eqn:S.
+  specialize (IH s1 k). destruct (run Fixed s1 r) as [s2 xs] eqn:R. cbn.
+  apply IH. replace s1 with (fst (step Fixed st oc)) by (rewrite S; reflexivity).
+  apply step_keeps_key. exact H.
+Qed.
+
+(* durability: an entry stays, unchanged, as long as no rotation of that id is attempted *)
+Lemma run_keeps_entry : forall ops st id ks,
+  lookup (st_store st) id = Some ks ->
+  (forall oc, In oc ops -> fst oc <> KRotate id) ->
+  lookup (st_store (fst (run Fixed st ops))) id = Some ks.
+Proof.
+  induction ops as [|oc r IH]; intros st id ks L NR; cbn; [exact L|].
+  destruct (step Fixed st oc) as [s1 x] eqn:S.
+  specialize (IH s1 id ks). destruct (run Fixed s1 r) as [s2 xs] eqn:R. cbn.
+  apply IH.
+  - replace s1 with (fst (step Fixed st oc)) by (rewrite S; reflexivity).
+    destruct (step_entry st oc id ks L) as [K | (K & _)]; [exact K|].
+    exfalso. apply (NR oc); [left; reflexivity | exact K].
+  - intros oc' I. apply NR. right. exact I.
+Qed.
+
+(* what a returned id denotes *)
+Lemma primary_snoc kt l k : primary {| ks_kt := kt; ks_keys := l ++ [k] |} = Some k.
+Proof.
+  unfold primary; cbn. rewrite map_app. cbn.
+  induction (map Some l) as [|a m IH]; cbn; [reflexivity|].
+  destruct (m ++ [Some k]) eqn:E; [destruct m; discriminate|]. exact IH.
+Qed.
+
+Ltac sca := unfold apply_calls in *; cbn [fold_left apply_call fst snd] in *.
+
+Lemma returned_is_stored : forall v st o c id k,
+  snd (step v st (o, c)) = OId id k \/ snd (step v st (o, c)) = OIdPub id k ->
+  exists ks, lookup (st_store (fst (step v st (o, c)))) id = Some ks /\ primary ks = Some k /\
+             (forall k', In k' (ks_keys ks) -> k' = k \/ has_key (st_store st) k').
+Proof.
+  intros v st o c id k H. rewrite step_store.
+  destruct (step_cases v st o c) as [(n & pre & -> & S & C & O) | (C & O)].
+  - rewrite O in H. destruct H; discriminate.
+  - rewrite C. rewrite O in H. clear C O.
+    set (s := st_store st) in *. set (p := st_pos st) in *.
+    destruct o as [kt|kt|kt u k0|rid|gid|eid|]; cbn [plan] in *.
+    + destruct (negb (kt_creatable kt)); [destruct H; discriminate|].
+      destruct (lookup s (new_id kt p p)) eqn:E; sca; [destruct H; discriminate|].
+      destruct H as [H|H]; inversion H; subst.
+      eexists. split; [apply lookup_put_same|]. split; [reflexivity|].
+      intros k' [<-|[]]. left; reflexivity.
+    + destruct (negb (kt_creatable kt)); [destruct H; discriminate|].
+      destruct (lookup s (new_id kt p p)) eqn:E; sca; [destruct H; discriminate|].
+      destruct (kt_random_id kt); destruct H as [H|H]; inversion H; subst.
+      eexists. split; [apply lookup_put_same|]. split; [reflexivity|].
+      intros k' [<-|[]]. left; reflexivity.
+    + destruct (negb (kt_importable kt)); [destruct H; discriminate|].
+      match type of H with context [lookup s ?i] => destruct (lookup s i) eqn:E end; sca;
+        [destruct H; discriminate|].
+      destruct H as [H|H]; inversion H; subst.
+      eexists. split; [apply lookup_put_same|]. split; [reflexivity|].
+      intros k' [<-|[]]. left; reflexivity.
+    + destruct (lookup s rid) as [oks|] eqn:E; sca; [|destruct H; discriminate].
+      destruct (negb (kt_template (ks_kt oks))); sca; [destruct H; discriminate|].
+      destruct (v_rot v).
+      * destruct (lookup (remove s rid) (new_id (ks_kt oks) p p)) eqn:E2; sca; [destruct H; discriminate|].
+        destruct H as [H|H]; inversion H; subst.
+        eexists. split; [apply lookup_put_same|]. split; [apply primary_snoc|].
+        cbn. intros k' I. apply in_app_or in I. destruct I as [I|[<-|[]]]; [right|left; reflexivity].
+        exists rid, oks. split; assumption.
+      * destruct (lookup s (new_id (ks_kt oks) p p)) eqn:E2; sca; [destruct H; discriminate|].
+        destruct H as [H|H]; inversion H; subst.
+        assert (NE : new_id (ks_kt oks) (st_pos st) (st_pos st) <> rid)
+          by (intro X; fold p in X; rewrite X in E2; congruence).
+        eexists. split; [rewrite lookup_remove_other by exact NE; apply lookup_put_same|].
+        split; [apply primary_snoc|].
+        cbn. intros k' I. apply in_app_or in I. destruct I as [I|[<-|[]]]; [right|left; reflexivity].
+        exists rid, oks. split; assumption.
+    + destruct (lookup s gid); destruct H; discriminate.
+    + destruct (lookup s eid) as [ks|]; [|destruct H; discriminate].
+      destruct (kt_random_id (ks_kt ks)); [destruct H; discriminate|].
+      destruct (primary ks); destruct H; discriminate.
+    + destruct H; discriminate.
+Qed.
+
+(* ---------- import never overwrites; no Put ever overwrites ---------- *)
+
+Lemma import_existing_refused : forall v st kt u k c ks,
+  lookup (st_store st) (KUser u) = Some ks ->
+  snd (step v st (KImport kt (Some u) k, c)) = OErr /\
+  st_store (fst (step v st (KImport kt (Some u) k, c))) = st_store st.
+Proof.
+  intros v st kt u k c ks L. rewrite step_store.
+  destruct (step_cases v st (KImport kt (Some u) k) c) as [(n & pre & -> & S & C & O) | (C & O)].
+  - exfalso. cbn [plan fst] in S. destruct (negb (kt_importable kt)); [discriminate|].
+    rewrite L in S. cbn in S. discriminate.
+  - rewrite C, O. cbn [plan]. destruct (negb (kt_importable kt)); [split; reflexivity|].
+    rewrite L. split; reflexivity.
+Qed.
+
+(* every Put of every plan goes to an id that is absent at that moment (both variants) *)
+Fixpoint puts_fresh (s : store) (cs : list scall) : Prop :=
+  match cs with
+  | [] => True
+  | c :: r => match c with SPut id _ => lookup s id = None | _ => True end /\ puts_fresh (apply_call s c) r
+  end.
+
+Lemma plan_puts_fresh : forall v s p o, puts_fresh s (fst (plan v s p o)).
+Proof.
+  intros v s p o.
+  destruct o as [kt|kt|kt u k|rid|gid|eid|]; cbn [plan].
+  - destruct (negb (kt_creatable kt)); [exact I|].
+    destruct (lookup s (new_id kt p p)) eqn:E; cbn; auto.
+  - destruct (negb (kt_creatable kt)); [exact I|].
+    destruct (lookup s (new_id kt p p)) eqn:E; cbn; auto.
+  - destruct (negb (kt_importable kt)); [exact I|].
+    match goal with |- context [lookup s ?i] => destruct (lookup s i) eqn:E end; cbn; auto.
+  - destruct (lookup s rid) as [oks|] eqn:E; [|cbn; auto].
+    destruct (negb (kt_template (ks_kt oks))); [cbn; auto|].
+    destruct (v_rot v).
+    + destruct (lookup (remove s rid) (new_id (ks_kt oks) p p)) eqn:E2; cbn; auto.
+    + destruct (lookup s (new_id (ks_kt oks) p p)) eqn:E2; cbn; auto.
+  - cbn; auto.
+  - cbn; auto.
+  - exact I.
+Qed.
+
+(* ---------- key ids ---------- *)
+
+Lemma create_id_is_thumbprint : forall v st kt c id k,
+  kt_random_id kt = false ->
+  snd (step v st (KCreate kt, c)) = OId id k \/ snd (step v st (KCreateExport kt, c)) = OIdPub id k ->
+  id = KThumb k /\ k = st_pos st.
+Proof.
+  intros v st kt c id k A H.
+  destruct H as [H|H].
+  - destruct (step_cases v st (KCreate kt) c) as [(n & pre & -> & S & C & O) | (C & O)];
+      rewrite O in H; [discriminate|]. cbn [plan] in H.
+    destruct (negb (kt_creatable kt)); [discriminate|].
+    unfold new_id in H. rewrite A in H.
+    destruct (lookup (st_store st) (KThumb (st_pos st))); cbn in H; [discriminate|].
+    inversion H; subst. split; reflexivity.
+  - destruct (step_cases v st (KCreateExport kt) c) as [(n & pre & -> & S & C & O) | (C & O)];
+      rewrite O in H; [discriminate|]. cbn [plan] in H.
+    destruct (negb (kt_creatable kt)); [discriminate|].
+    unfold new_id in H. rewrite A in H.
+    destruct (lookup (st_store st) (KThumb (st_pos st))); cbn in H; [discriminate|].
+    inversion H; subst. split; reflexivity.
+Qed.
+
+Lemma rotate_id_is_thumbprint : forall v st old ks c id k,
+  lookup (st_store st) old = Some ks -> kt_random_id (ks_kt ks) = false ->
+  snd (step v st (KRotate old, c)) = OId id k ->
+  id = KThumb k /\ k = st_pos st.
+Proof.
+  intros v st old ks c id k L A H.
+  destruct (step_cases v st (KRotate old) c) as [(n & pre & -> & S & C & O) | (C & O)];
+    rewrite O in H; [discriminate|]. cbn [plan] in H. rewrite L in H.
+  destruct (negb (kt_template (ks_kt ks))); [discriminate|].
+  unfold new_id in H. rewrite A in H.
+  destruct (v_rot v).
+  - destruct (lookup (remove (st_store st) old) (KThumb (st_pos st))); cbn in H; [discriminate|].
+    inversion H; subst. split; reflexivity.
+  - destruct (lookup (st_store st) (KThumb (st_pos st))); cbn in H; [discriminate|].
+    inversion H; subst. split; reflexivity.
+Qed.
+
+Definition import_thumb_type (kt : ktype) : bool :=
+  kt_kid_defined kt && negb (match kt with K_ECDSASecp256k1DER => true | _ => false end).
+
+Lemma import_id : forall st kt u k c id k',
+  snd (step Fixed st (KImport kt u k, c)) = OId id k' ->
+  k' = k /\ match u with
+            | Some n => id = KUser n
+            | None => import_thumb_type kt = true -> id = KThumb k
+            end.
+Proof.
+  intros st kt u k c id k' H.
+  destruct (step_cases Fixed st (KImport kt u k) c) as [(n & pre & -> & S & C & O) | (C & O)];
+    rewrite O in H; [discriminate|]. cbn [plan] in H.
+  destruct (negb (kt_importable kt)); [discriminate|].
+  match type of H with context [lookup (st_store st) ?i] => destruct (lookup (st_store st) i) eqn:E end;
+    cbn in H; [discriminate|].
+  inversion H; subst. split; [reflexivity|].
+  destruct u; [reflexivity|]. intro T. unfold import_thumb_type in T. cbn [v_import_thumb Fixed].
+  cbn. rewrite T. reflexivity.
+Qed.
+
+(* a thumbprint id names the keyset whose primary key it is the thumbprint of — in every state reached from a
+   state with that property *)
+Definition thumb_wf (s : store) : Prop :=
+  forall k ks, lookup s (KThumb k) = Some ks -> primary ks = Some k.
+
+Lemma thumb_wf_put s id ks :
+  thumb_wf s -> (forall k, id = KThumb k -> primary ks = Some k) -> thumb_wf (put s id ks).
+Proof.
+  intros W H k ks' L.
+  destruct (kid_eqb (KThumb k) id) eqn:E.
+  - apply kid_eqb_eq in E. subst id. rewrite lookup_put_same in L. inversion L; subst. apply H; reflexivity.
+  - apply kid_eqb_neq in E. rewrite lookup_put_other in L by exact E. apply W; exact L.
+Qed.
+Lemma thumb_wf_remove s id : thumb_wf s -> thumb_wf (remove s id).
+Proof.
+  intros W k ks L.
+  destruct (kid_eqb (KThumb k) id) eqn:E.
+  - apply kid_eqb_eq in E. subst id. rewrite lookup_remove_same in L. discriminate.
+  - apply kid_eqb_neq in E. rewrite lookup_remove_other in L by exact E. apply W; exact L.
+Qed.
+
+Fixpoint calls_wf (cs : list scall) : Prop :=
+  match cs with
+  | [] => True
+  | SPut id ks :: r => (forall k, id = KThumb k -> primary ks = Some k) /\ calls_wf r
+  | _ :: r => calls_wf r
+  end.
+
+Lemma apply_calls_wf cs : forall s, thumb_wf s -> calls_wf cs -> thumb_wf (apply_calls s cs).
+Proof.
+  induction cs as [|c r IH]; intros s W C; [exact W|].
+  unfold apply_calls; cbn [fold_left]. fold (apply_calls (apply_call s c) r).
+  destruct c as [i|i ks|i]; cbn [calls_wf apply_call] in *.
+  - apply IH; assumption.
+  - destruct C as [C1 C2]. apply IH; [apply thumb_wf_put; assumption | exact C2].
+  - apply IH; [apply thumb_wf_remove; exact W | exact C].
+Qed.
+
+Lemma survive_wf : forall cs c pre, survive c cs = Some pre -> calls_wf cs -> calls_wf pre.
+Proof.
+  induction cs as [|x r IH]; intros c pre S W; cbn in S; [discriminate|].
+  destruct (is_mutation x) eqn:M.
+  - destruct c as [|c]; [inversion S; exact I|].
+    destruct (survive c r) as [pre'|] eqn:S'; cbn in S; [|discriminate]. inversion S; subst.
+    destruct x; cbn in *; try discriminate.
+    + destruct W as [W1 W2]. split; [exact W1 | eapply IH; eassumption].
+    + eapply IH; eassumption.
+  - destruct (survive c r) as [pre'|] eqn:S'; cbn in S; [|discriminate]. inversion S; subst.
+    destruct x; cbn in *; try discriminate. eapply IH; eassumption.
+Qed.
+
+Lemma new_id_thumb kt k p k' : new_id kt k p = KThumb k' -> k' = k.
+Proof. unfold new_id. destruct (kt_random_id kt); intro H; inversion H; reflexivity. Qed.
+
+Lemma plan_calls_wf : forall v s p o, calls_wf (fst (plan v s p o)).
+Proof.
+  intros v s p o.
+  destruct o as [kt|kt|kt u k|rid|gid|eid|]; cbn [plan].
+  - destruct (negb (kt_creatable kt)); [exact I|].
+    destruct (lookup s (new_id kt p p)); cbn [calls_wf fst]; auto.
+    split; auto. intros k E. apply new_id_thumb in E. subst. reflexivity.
+  - destruct (negb (kt_creatable kt)); [exact I|].
+    destruct (lookup s (new_id kt p p)); cbn [calls_wf fst]; auto.
+    split; auto. intros k E. apply new_id_thumb in E. subst. reflexivity.
+  - destruct (negb (kt_importable kt)); [exact I|].
+    match goal with |- context [lookup s ?i] => destruct (lookup s i) eqn:E end; cbn [calls_wf fst]; auto.
+    split; auto. intros k' E'. destruct u; [discriminate|].
+    destruct (v_import_thumb v && kt_kid_defined kt && _); inversion E'; subst. reflexivity.
+  - destruct (lookup s rid) as [oks|]; [|cbn [calls_wf fst]; auto].
+    destruct (negb (kt_template (ks_kt oks))); [cbn [calls_wf fst]; auto|].
+    destruct (v_rot v).
+    + destruct (lookup (remove s rid) (new_id (ks_kt oks) p p)); cbn [calls_wf fst]; auto.
+      split; auto. intros k E. apply new_id_thumb in E. subst. apply primary_snoc.
+    + destruct (lookup s (new_id (ks_kt oks) p p)); cbn [calls_wf fst]; auto.
+      split; auto. intros k E. apply new_id_thumb in E. subst. apply primary_snoc.
+  - cbn [calls_wf fst]; auto.
+  - cbn [calls_wf fst]; auto.
+  - exact I.
+Qed.
+
+Lemma step_thumb_wf : forall v st oc, thumb_wf (st_store st) -> thumb_wf (st_store (fst (step v st oc))).
+Proof.
+  intros v st [o c] W. rewrite step_store.
+  destruct (step_cases v st o c) as [(n & pre & -> & S & C & O) | (C & O)]; rewrite C.
+  - apply apply_calls_wf; [exact W|]. eapply survive_wf; [exact S | apply plan_calls_wf].
+  - apply apply_calls_wf; [exact W | apply plan_calls_wf].
+Qed.
+
+Lemma run_thumb_wf : forall v ops st, thumb_wf (st_store st) -> thumb_wf (st_store (fst (run v st ops))).
+Proof.
+  intros v. induction ops as [|oc r IH]; intros st W; cbn; [exact W|].
+  destruct (step v st oc) as [s1 x] eqn:S.
+  specialize (IH s1). destruct (run v s1 r) as [s2 xs]. cbn. apply IH.
+  replace s1 with (fst (step v st oc)) by (rewrite S; reflexivity). apply step_thumb_wf; exact W.
+Qed.
+
+(* ---------- thumbprint pre-images are injective in the key ---------- *)
+
+Definition qa : ascii := ascii_of_nat 34.
+
+Fixpoint noq (s : string) : Prop :=
+  match s with EmptyString => True | String a r => a <> qa /\ noq r end.
+
+Lemma app_q_inj : forall x x' r r',
+  noq x -> noq x' ->
+  (x ++ String qa r)%string = (x' ++ String qa r')%string -> x = x' /\ r = r'.
+Proof.
+  induction x as [|a x IH]; intros [|a' x'] r r' N N' E; cbn in *.
+  - inversion E; split; reflexivity.
+  - inversion E; subst. destruct N' as [N' _]. contradiction.
+  - inversion E; subst. destruct N as [N _]. contradiction.
+  - inversion E; subst. destruct N as [_ N], N' as [_ N'].
+    destruct (IH x' r r' N N' H1) as [-> ->]. split; reflexivity.
+Qed.
+
+Lemma sapp_assoc (a b c : string) : ((a ++ b) ++ c)%string = (a ++ (b ++ c))%string.
+Proof. induction a as [|x a IH]; cbn; [reflexivity | rewrite IH; reflexivity]. Qed.
+
+Lemma preimage_inj : forall c xs ys xs' ys',
+  noq xs -> noq ys -> noq xs' -> noq ys' ->
+  preimage c xs ys = preimage c xs' ys' ->
+  xs = xs' /\ (is_ec c = true -> ys = ys').
+Proof.
+  intros c xs ys xs' ys' Nx Ny Nx' Ny' E.
+  unfold preimage, q in E. fold qa in E.
+  destruct c; cbn in E;
+    repeat match type of E with String ?a _ = String ?a _ => injection E as E end;
+    match type of E with (?a ++ _)%string = _ => idtac end.
+  all: apply app_q_inj in E; try assumption; destruct E as [-> E]; split; try reflexivity; intro EC; try discriminate.
+  all: repeat match type of E with String ?a _ = String ?a _ => injection E as E end.
+  all: rewrite !sapp_assoc in E; cbn [append] in E.
+  all: apply app_q_inj in E; try assumption; destruct E as [-> _]; reflexivity.
+Qed.
+
+(* ---------- did:key ---------- *)
+
+Lemma all_ktypes_complete : forall k, In k all_ktypes.
+Proof. destruct k; cbn; tauto. Qed.
+
+Lemma didkey_readable_all : forall kt ce, build_didkey kt = Some ce -> didkey_readable ce = true.
+Proof. intros kt ce H. destruct kt; vm_compute in H; inversion H; subst; reflexivity. Qed.
